@@ -82,10 +82,18 @@ impl Closure {
 fn main() {
     let o = verif_harness::parse_opts();
     let mut prop = "C01".to_string();
+    let mut threads = 1usize;
+    let mut ncases_override: Option<usize> = None;
     let mut i = 0;
     while i < o.extra.len() {
         if o.extra[i] == "--prop" {
             prop = o.extra[i + 1].clone();
+            i += 1;
+        } else if o.extra[i] == "--cases" {
+            ncases_override = Some(o.extra[i + 1].parse::<usize>().expect("cases"));
+            i += 1;
+        } else if o.extra[i] == "--threads" {
+            threads = o.extra[i + 1].parse().expect("threads");
             i += 1;
         }
         i += 1;
@@ -101,8 +109,8 @@ fn main() {
     let header = "From Coq Require Import List ZArith NArith.\nImport ListNotations.\nRequire Import Verif.Base.Cases Verif.Egg.Model Verif.Egg.Rules.\n";
     let mut w = CaseWriter::new(&o.out, "cases_egg", header, "check_case", 40);
     let ncases = match (o.thorough, bias) {
-        (false, _) => 240,
-        (true, _) => 3000,
+        (false, _) => ncases_override.unwrap_or(240),
+        (true, _) => ncases_override.map(|n| n * 12).unwrap_or(3000),
     };
     let mut viols: Vec<Viol> = Vec::new();
     let mut distinct: HashSet<String> = HashSet::new();
@@ -150,7 +158,7 @@ fn main() {
                 }
             }
         }
-        let mut eg = egglog::EGraph::default();
+        let mut eg = if threads > 1 { egglog::EGraph::default().with_num_threads(threads) } else { egglog::EGraph::default() };
         let (r0, _) = step(&mut eg, &p.header());
         if let Err(e) = r0 {
             viols.push(Viol { what: format!("harness: header rejected: {e}"), key: "harness-header".into(), program: text.clone(), at: 0 });
@@ -222,6 +230,14 @@ fn main() {
             }
             if matches!(c, Cmd::Rule(_)) {
                 rule_free = false;
+            }
+            // The model instantiates rule actions through witness TERMS; after a delete a witness
+            // term may mention a deleted row, so re-adding it would resurrect the row, which the
+            // engine (working on ids) does not do. Deletion is outside the monotone fragment: stop
+            // comparing with the model at the first rule run after a delete (the engine-side
+            // predicates keep running).
+            if matches!(c, Cmd::Run(_)) && any_delete && !rule_free {
+                model_ok = false;
             }
             let d = match dump(&eg, p) {
                 Ok(d) => d,
@@ -494,7 +510,7 @@ fn main() {
         })
         .collect();
     let rep = serde_json::json!({
-        "sub": format!("egg/{prop}"),
+        "sub": format!("egg/{prop}/threads={threads}"),
         "cases": programs.len(),
         "shards": w.shards,
         "distinct_nontrivial": nontrivial,
